@@ -748,7 +748,8 @@ pub fn gen_world(seed: u64, p: &Profile) -> World {
         }
     }
     // very rarely a long list (parallel / chunked code paths of list handling)
-    if r.chance(1) && r.chance(50) {
+    let huge = r.chance(5) && r.chance(25);
+    if huge {
         let extra_n = 4090 + r.below(12);
         let mut pp = p.clone();
         pp.badfilter = false;
@@ -756,6 +757,10 @@ pub fn gen_world(seed: u64, p: &Profile) -> World {
             rules.push(Rule { spec: RuleSpec::Net(NetRule { exc: false, pat: format!("/bulk/{}/item{}", r.pick(SEGS), k), opts: vec![], tag: None }), perm: 0 });
         }
         let _ = pp;
+        // one permission level for the whole list, so that it is handed over in one piece
+        for x in rules.iter_mut() {
+            x.perm = 0;
+        }
     }
     // degenerate lists: nothing at all, cosmetic rules only, tagged network rules only
     match r.below(40) {
@@ -889,7 +894,8 @@ pub fn gen_world(seed: u64, p: &Profile) -> World {
     let knobs = Knobs {
         optimize: kr.chance(50),
         debug: kr.chance(50),
-        build_mode: kr.below(3) as u8,
+        // (long lists are handed over in one piece, as a real list file would be)
+        build_mode: if huge { 0 } else { kr.below(3) as u8 },
         alloc_policy: kr.below(5) as u8,
         alloc_seed: Rng::stream(seed, "alloc").next(),
         hash_key: Rng::stream(seed, "hashkey").next(),
